@@ -13,7 +13,6 @@ From Coq Require Import ZArith List Bool Permutation.
 From GV Require Import Base.CSem Base.F32 Gen.MetricPyx Spec.Jaccard Spec.JaccardF Spec.C05
   Model.MetricPy Model.C05 Proofs.C05Sched Proofs.C05Array Proofs.C05Chunks Proofs.C05Matrix
   Proofs.C05Pairwise Proofs.C05Square.
-From GV Require Import Gen.PyC05 Proofs.PyTieC05.
 Import ListNotations.
 Open Scope Z_scope.
 
@@ -139,19 +138,3 @@ Theorem C05_pairwise_square : forall fx c d ss indices out sel,
         nth_error row j = Some (if Nat.eqb i j then f32_zero else dist si sj).
 Proof. exact C05Square.C05_pairwise_square. Qed.
 Print Assumptions C05_pairwise_square.
-
-(** syntactic tie: gambit.util.misc.chunk_slices and gambit.metric.num_pairs as translated from the Python
-    text by tools/py2v.py are the model's [chunk_slices_from] / [num_pairs] *)
-Theorem C05_tie_chunk_slices : forall fuel n size start,
-  py_chunk_slices_loop fuel n size start =
-    match Model.C05.chunk_slices_from fuel n size start with
-    | POk l => Ok l
-    | PErr (PKernel e) => Error e
-    | PErr _ => Error ValueError
-    end.
-Proof. exact tie_chunk_loop. Qed.
-Print Assumptions C05_tie_chunk_slices.
-
-Theorem C05_tie_num_pairs : forall n, py_num_pairs n = Ok (Model.C05.num_pairs n).
-Proof. exact tie_num_pairs. Qed.
-Print Assumptions C05_tie_num_pairs.
